@@ -133,7 +133,10 @@ pub fn verif_root() -> PathBuf {
 }
 
 pub fn work_root() -> PathBuf {
-    verif_root().join(".work")
+    match std::env::var("VERIF_ROOT_WORK_SUFFIX") {
+        Ok(sfx) if !sfx.is_empty() => verif_root().join(format!(".work-{}", sfx)),
+        _ => verif_root().join(".work"),
+    }
 }
 
 pub fn ensure_clean_dir(p: &Path) {
